@@ -129,6 +129,7 @@ package state
 //@ immutable {C18,C19} typedCollectionApplier.collection TypedCollection.store TypedCollection.entityType Materializer.cfg
 //@ immutable {C18,C19} materializerConfig.onReset materializerConfig.onSnapshot materializerConfig.onError materializerConfig.strictSchema
 //@ initwriter WithOnReset$1 WithOnSnapshot$1 WithOnError$1 WithStrictSchema$1 NewMaterializer NewTypedCollection NewTypedCollectionWithType RegisterCollection
+//@ initwriter WithAutoTimestamp$1 WithEntityType$1 WithTimestamp$1 WithTxID$1
 
 //@ func (*typedCollectionApplier[T]).applyChange
 //@   props C18 C19
